@@ -27,6 +27,10 @@ type Log struct {
 	PeerAd   map[string]string // string attributes of the endpoint's security ad
 	Finished bool              // the script ran to its normal end (connection left open)
 	Note     string
+	// DerivedKey is the session key the peer computes on its own (reference ECDH +
+	// HKDF) from its private key and the endpoint's advertised public key; nil when
+	// the peer holds no usable private key or the endpoint advertised none.
+	DerivedKey []byte
 }
 
 // Key material variants for the ECDHPublicKey attribute.
@@ -138,6 +142,9 @@ func ServeScript(conn *Conn, sc SrvScript, rng *mrand.Rand) (lg *Log) {
 		lg.PeerAd[k] = AdString(cad, k)
 	}
 	keyAttr, priv := makeKey(sc.Key, rng)
+	if priv != nil && lg.PeerAd["ECDHPublicKey"] != "" {
+		lg.DerivedKey, _ = DeriveKey(priv, lg.PeerAd["ECDHPublicKey"])
+	}
 	ad := classad.New()
 	set := func(k, v string) {
 		if v != "" {
@@ -297,7 +304,7 @@ func DialScript(conn *Conn, sc CliScript, rng *mrand.Rand) (lg *Log) {
 		}
 	}()
 	st := stream.NewStream(conn)
-	keyAttr, _ := makeKey(sc.Key, rng)
+	keyAttr, priv := makeKey(sc.Key, rng)
 	ad := classad.New()
 	set := func(k, v string) {
 		if v != "" {
@@ -332,6 +339,9 @@ func DialScript(conn *Conn, sc CliScript, rng *mrand.Rand) (lg *Log) {
 	}
 	if rc := lg.PeerAd["ReturnCode"]; rc != "" && rc != "AUTHORIZED" {
 		return
+	}
+	if priv != nil && lg.PeerAd["ECDHPublicKey"] != "" {
+		lg.DerivedKey, _ = DeriveKey(priv, lg.PeerAd["ECDHPublicKey"])
 	}
 	sendInt := func(v int64) bool {
 		m := message.NewMessageForStream(st)
